@@ -920,15 +920,18 @@ def _emit_update_statements(
                 rows += c.rowcount
 
                 for (
-                    state,
-                    state_dict,
-                    params,
-                    mapper,
-                    connection,
-                    value_params,
-                    has_all_defaults,
-                    has_all_pks,
-                ) in records:
+                    (
+                        state,
+                        state_dict,
+                        params,
+                        mapper,
+                        connection,
+                        value_params,
+                        has_all_defaults,
+                        has_all_pks,
+                    ),
+                    last_updated_params,
+                ) in zip(records, c.context.compiled_parameters):
                     if bookkeeping:
                         _postfetch(
                             mapper,
@@ -937,7 +940,7 @@ def _emit_update_statements(
                             state,
                             state_dict,
                             c,
-                            c.context.compiled_parameters[0],
+                            last_updated_params,
                             value_params,
                             True,
                             (
